@@ -143,3 +143,52 @@ def check_c20(prop, tier, replay):
                       "C14: the header block is not protected)",
                       "external snapshot files cannot be produced on the in-memory file system",
                   ])
+
+
+def check_c08_compaction(prop, tier, replay):
+    """second engine of C08: the compaction part of the property on real NodeHosts"""
+    return tv_run(prop, tier, replay, harness_dirs=HARNESS, pkg=".", test="TestVerifNhsim",
+                  trace_module="CompactionTrace", tag="CP-REPORT", count_tag="CP-COUNT",
+                  batches=_snap_batches(tier), env_of=_snap_env, mc=(),
+                  level="model_checking", stats_tag="NHSTATS", panic_ok=True, max_workers=8,
+                  build_name="nhsim", merge_into_existing=True,
+                  what="log compaction left a gap between the recorded snapshot and the log the replica restarts "
+                       "from (or the restart panicked)",
+                  sig_of=lambda op, f: "C08:%s" % op,
+                  assumptions=["compaction part: real NodeHosts (nhsim snap scenarios: slow concurrent snapshot "
+                               "saves under continuous writes with compaction overhead 0-2, power loss, restart); "
+                               "what the log store returns at restart must continue the recorded snapshot"])
+
+
+def check_c03_nodes(prop, tier, replay):
+    """second engine of C03: votes and leaders as told to the world by real NodeHosts across power losses"""
+    return tv_run(prop, tier, replay, harness_dirs=HARNESS, pkg=".", test="TestVerifNhsim",
+                  trace_module="NodeSafetyTrace", tag="NS-REPORT", count_tag="NS-COUNT",
+                  batches=_batches(tier, "pipe", stores=(None, "tan", None, "pebble")), env_of=_env, mc=(),
+                  level="model_checking", stats_tag="NHSTATS", panic_ok=True, max_workers=8,
+                  build_name="nhsim", merge_into_existing=True,
+                  what="a replica of a real NodeHost cluster voted twice in a term (across restarts) or two replicas "
+                       "were reported leader for the same term",
+                  sig_of=lambda op, f: "C03:%s" % op,
+                  assumptions=["NodeHost level: votes are read off the messages that reach the transport, leaders "
+                               "off the RaftEventListener; power losses and restarts of the real node / engine / log "
+                               "store stack lie in between (nhsim pipe scenarios, Pebble and Tan)"])
+
+
+def check_c07_nodes(prop, tier, replay):
+    """third engine of C07: membership requests through the public API of real NodeHosts"""
+    n, tr, rounds = (8, 3, 14) if tier == "quick" else (24, 10, 20)
+    batches = [{"first": k * tr, "traces": tr, "mode": "member", "dur": 0, "rounds": rounds,
+                "store": "tan" if k % 4 == 3 else None} for k in range(n)]
+    return tv_run(prop, tier, replay, harness_dirs=HARNESS, pkg=".", test="TestVerifNhsim",
+                  trace_module="MemberTrace", tag="MB-REPORT", count_tag="MB-COUNT",
+                  batches=batches, env_of=_snap_env, mc=(),
+                  level="model_checking", stats_tag="NHSTATS", panic_ok=True, max_workers=8,
+                  build_name="nhsim", merge_into_existing=True,
+                  what="membership change through the NodeHost API: accept/reject decision or resulting membership "
+                       "differs from the rule table (or hosts report a malformed membership)",
+                  sig_of=lambda op, f: "C07:%s" % op,
+                  assumptions=["NodeHost level: seeded sequences of AddReplica / AddNonVoting / promotion / "
+                               "DeleteReplica and of requests that must be refused, with and without "
+                               "OrderedConfigChange, while clients write; memberships read through "
+                               "SyncGetShardMembership on every running host"])
